@@ -896,11 +896,16 @@ pub fn check(world: &World, sc: &C17, sandbox: &str) -> Report {
             }
         }
         Fault::InvalidFormula { text, .. } | Fault::MissingLabel { text, .. } => {
-            expect_message = true;
-            unevaluable = Some(text.trim().to_string());
+            // the formula file is explicit: the expectation follows from what it actually contains
+            if expected.iter().any(|f| f == text.trim()) {
+                expect_message = true;
+                unevaluable = Some(text.trim().to_string());
+            }
         }
         Fault::WildWithoutContext => {
-            expect_message = true;
+            if expected.iter().any(|f| f.contains('%')) {
+                expect_message = true;
+            }
         }
         _ => {}
     }
